@@ -344,6 +344,9 @@ class Inliner:
                         out.append(nm)
         return out
 
+    def _resolve_any(self, call, f, root):
+        return self._resolve(call, f, root=root) is not None or self._resolve(call, f, generator=True, root=root) is not None
+
     def _local_instances(self, root, f):
         """{local: ClassInfo} for locals of `root` bound exactly once, to `_PrivateClass(...)` of the same module"""
         cache = getattr(self, "_li_cache", None)
@@ -507,6 +510,13 @@ class Inliner:
                     return self._expand_collect(s, tgt, r[0], r[1], root)
                 except _NoInline as e:
                     self.log.append(f"{f.key}: {r[0].key} (generator in list()) not inlined: {e}")
+        if isinstance(s, ast.Assign) and isinstance(s.value, ast.IfExp):
+            # `x = helper(..) if T else B`: a helper call in a branch of a conditional expression is conditionally evaluated;
+            # as an if / else statement it becomes an ordinary statement that can be expanded
+            if any(isinstance(c, ast.Call) and self._resolve_any(c, f, root) for br in (s.value.body, s.value.orelse) for c in ast.walk(br)):
+                from .canon import _lift_ifexp_stmt
+
+                return [_lift_ifexp_stmt(s)]
         if isinstance(s, ast.Expr) and isinstance(s.value, ast.YieldFrom) and isinstance(s.value.value, ast.Call):
             # `yield from helper(args)`: the generator helper's statements, yields and all
             r = self._resolve(s.value.value, f, generator=True, root=root)
